@@ -87,7 +87,7 @@ Definition hash_union_body : block :=
   [ELet false "size" (ECall (EToks (core_path ["mem"; "size_of"] ++ [P "::"; P "<"; I "Self"; P ">"])) []);
    ELet false "data"
      (EUnsafe [ECall (EPath (RCore ["slice"; "from_raw_parts"]))
-                 [ECast (ECast (EVar "self") [P "*"; I "const"; I "Self"]) [P "*"; I "const"; I "u8"];
+                 [ECast (ECast (EVar "self") [P "*"; I "const"; I "Self"]) const_u8_ty;
                   EVar "size"]]);
    ECall (EPath (RCore ["hash"; "Hash"; "hash"])) [EVar "data"; EVar "state"]].
 
